@@ -536,6 +536,12 @@ func findSwallows(p *Prog, pk *packages.Package) []swallowSite {
 						}
 					}
 				}
+				// a fallback value for a failed computation that has no effect (`rel, err := filepath.Rel(a, b); if err !=
+				// nil { return path, nil }` is `if rel, err := …; err == nil { return rel, nil }; return path, nil` written
+				// the other way round): nothing was attempted whose failure could be lost, and the caller gets a value
+				if !s.Classified && len(r.Results) >= 2 && swallowIsFallback(info, encl, ifs, obj, r) {
+					s.Classified = true
+				}
 				out = append(out, s)
 				return true
 			})
@@ -622,4 +628,55 @@ func checkDeferLocal(c *Ctx, rule string, info *types.Info, fn ast.Node, body *a
 			return true
 		})
 	}
+}
+
+// effectFreeStdPkgs: standard packages whose functions compute a value from their arguments (or read the
+// environment) and change nothing.
+var effectFreeStdPkgs = map[string]bool{"path/filepath": true, "path": true, "strconv": true, "net/url": true, "strings": true, "unicode/utf8": true}
+
+// swallowIsFallback: the error tested by ifs was produced by a call into an effect-free standard package, and the
+// nil-error return hands back a value that is not a zero literal.
+func swallowIsFallback(info *types.Info, encl ast.Node, ifs *ast.IfStmt, errObj types.Object, r *ast.ReturnStmt) bool {
+	var def *ast.CallExpr
+	look := func(as *ast.AssignStmt) {
+		if len(as.Rhs) != 1 {
+			return
+		}
+		call, ok := ast.Unparen(as.Rhs[0]).(*ast.CallExpr)
+		if !ok {
+			return
+		}
+		for _, l := range as.Lhs {
+			if id, ok := l.(*ast.Ident); ok && info.ObjectOf(id) == errObj && as.Pos() < ifs.Body.Pos() {
+				def = call // the last one before the test wins
+			}
+		}
+	}
+	ast.Inspect(encl, func(n ast.Node) bool {
+		if as, ok := n.(*ast.AssignStmt); ok {
+			look(as)
+		}
+		return true
+	})
+	if def == nil {
+		return false
+	}
+	fn := Callee(info, def)
+	if fn == nil || fn.Pkg() == nil || !effectFreeStdPkgs[fn.Pkg().Path()] || strings.HasPrefix(fn.Name(), "Walk") {
+		return false
+	}
+	for _, res := range r.Results[:len(r.Results)-1] {
+		res = ast.Unparen(res)
+		if isNilIdent(info, res) {
+			continue
+		}
+		if tv, ok := info.Types[res]; ok && tv.Value != nil {
+			continue // a constant: "", 0, false
+		}
+		if cl, ok := res.(*ast.CompositeLit); ok && len(cl.Elts) == 0 {
+			continue
+		}
+		return true
+	}
+	return false
 }
